@@ -1324,10 +1324,18 @@ func (fc *funcContext) translateImplicitConversion(expr ast.Expr, desiredType ty
 			// wrap JS object into js.Object struct when converting to interface
 			return fc.formatExpr("new $jsObjectPtr(%e)", expr)
 		}
+		if _, isArray := exprType.Underlying().(*types.Array); isArray {
+			// An interface holds its own copy of an array value.
+			return fc.formatExpr("new %1s($clone(%2e, %1s))", fc.typeName(exprType), expr)
+		}
 		if isWrapped(exprType) {
 			return fc.formatExpr("new %s(%e)", fc.typeName(exprType), expr)
 		}
 		if _, isStruct := exprType.Underlying().(*types.Struct); isStruct {
+			if _, isLit := astutil.RemoveParens(expr).(*ast.CompositeLit); !isLit {
+				// An interface holds its own copy of a struct value.
+				return fc.formatExpr("new %1e.constructor.elem($clone(%1e, %1e.constructor.elem))", expr)
+			}
 			return fc.formatExpr("new %1e.constructor.elem(%1e)", expr)
 		}
 	}
